@@ -113,10 +113,12 @@ theorem ehep_units_V (hr : p.region = 5) : EhepUnitsLaw p x t M L T := by
 theorem ehep_c10_units : EHEP.c10 (ehepScale p M L T) (L * x) (T * t) ↔ EHEP.c10 p x t := by
   obtain ⟨e1, e2, e3, e4⟩ := ehep_atoms p x t M L T hM hL hT ha
   have hLT : 0 < L / T := by positivity
-  simp only [epv_cond, ehepScale, e1, e2, ← mul_sub]
-  rw [show (1 : ℝ) / 2 * (L / T * (x / t - (x - p.xtilde) / (t - p.xtilde / p.D)))
-      = (1 / 2 * (x / t - (x - p.xtilde) / (t - p.xtilde / p.D))) * (L / T) by ring,
-    mul_nonneg_iff_of_pos_right hLT]
+  simp only [epv_cond, ehepScale, e1, e2]
+  -- the clamp test is `0 ≤ X`, and X scales like a speed — however the code writes X
+  have key : ∀ X Y : ℝ, X = L / T * Y → (0 ≤ X ↔ 0 ≤ Y) := fun X Y h => by
+    rw [h]; exact mul_nonneg_iff_of_pos_left hLT
+  apply key
+  ring
 
 theorem ehep_units_II (hr : p.region = 2) : EhepUnitsLaw p x t M L T := by
   have ha' := (ehep_accepted_units p M L T hM hL hT).mpr ha
